@@ -96,6 +96,12 @@ def cases():
     internal_case('keyword-and-optional',
                   '  call opt(x(1), scale=2.0)\n  call opt(v=x(2))\n  call opt(x(3), 3.0, k)',
                   '  subroutine opt(v, scale, cnt)\n    real, intent(inout) :: v\n    real, intent(in), optional :: scale\n    integer, intent(inout), optional :: cnt\n    if (present(scale)) then\n      v = v*scale\n    else\n      v = v + 1.0\n    end if\n    if (present(cnt)) cnt = cnt + 1\n  end subroutine opt')
+    internal_case('optional-present-other-case',
+                  '  call opt(x(1), pscale=2.0)\n  call opt(x(2))\n  call opt(x(3), 3.0, k)\n  call opt(V=x(1), CNT=k)',
+                  '  subroutine opt(v, pscale, cnt)\n    real, intent(inout) :: v\n    real, intent(in), optional :: pscale\n    integer, intent(inout), optional :: cnt\n    if (PRESENT(PSCALE)) then\n      v = v*PScale\n    else\n      v = v + 1.0\n    end if\n    if (present(Cnt)) CNT = cnt + 1\n  end subroutine opt')
+    internal_case('mixed-case-dummies-and-locals',
+                  '  T = 1.5\n  call Shift(X, n, T)\n  x(1) = x(1) + t',
+                  '  subroutine shift(ARR, M, Delta)\n    real, intent(inout) :: arr(m)\n    integer, intent(in) :: m\n    real, intent(in) :: DELTA\n    integer :: II\n    do ii=1,M\n      Arr(II) = arr(ii) + delta*Ii\n    end do\n  end subroutine shift')
     internal_case('early-return-free-conditional',
                   '  do i=1,n\n    call clip(x(i))\n  end do',
                   '  subroutine clip(v)\n    real, intent(inout) :: v\n    if (v > y) then\n      v = y\n    else if (v < -y) then\n      v = -y\n    end if\n  end subroutine clip')
@@ -151,6 +157,20 @@ end subroutine sfk
     end do
   end subroutine helper
 
+  subroutine hopt(m, v, pfac, kcount)
+    integer, intent(in) :: m
+    real, intent(inout) :: v(m)
+    real, intent(in), optional :: pfac
+    integer, intent(inout), optional :: kcount
+    integer :: i
+    if (PRESENT(PFAC)) then
+      do i=1,m
+        v(i) = v(i)*PFac
+      end do
+    end if
+    if (Present(KCount)) kcount = KCOUNT + m
+  end subroutine hopt
+
   subroutine seqk(m, v)
     integer, intent(in) :: m
     real, intent(inout) :: v(m)
@@ -183,6 +203,7 @@ end subroutine sfk
     mod_case('marked/section', '    !$loki inline\n    call helper(n, z(:, 2), y)\n    !$loki inline\n    call helper(n, z(:, 1), 2.0)', marked, 'inline-marked')
     mod_case('marked/in-loop', '    do i=1,2\n      !$loki inline\n      call helper(n, z(:, i), y*i)\n    end do', marked, 'inline-marked')
     mod_case('marked/sequence-association', '    !$loki inline\n    call seqk(n, z(1, 2))\n    !$loki inline\n    call seqk(n - 1, x(2))', trafo_all, 'inline-marked')
+    mod_case('marked/optional-present-other-case', '    i = 1\n    !$loki inline\n    call hopt(n, x, pfac=y, kcount=i)\n    !$loki inline\n    call hopt(n, z(:, 1))\n    !$loki inline\n    call hopt(n, z(:, 2), 2.0)\n    x(1) = x(1) + i', marked, 'inline-marked')
     mod_case('marked/trafo', '    t = y\n    !$loki inline\n    call helper(n, x, t)\n    x(n) = sq(x(n))', trafo_all, 'inline-marked')
     mod_case('constants/module-parameters', '    do i=1,n\n      x(i) = x(i)*rc + nconst\n    end do\n    x(nconst - 2) = rc', constants_all, 'inline-constants')
     # constants imported from another module
